@@ -151,6 +151,25 @@ class RCanon(iteralg.Canon):
                     return None
                 self.filters.setdefault(L, []).append(self.canon(cond))
                 return r
+            if name.endswith('Iterator::filter_map') and len(S1[2]) == 2:
+                # filter_map(|x| if c(x) { Some(v(x)) } else { None })  (also `c(x).then_some(v(x))`, normalised to the same value)
+                r = self.elem_of(S1[2][0], L, pos)
+                if r is None:
+                    return None
+                body = apply_fn(self.db, S1[2][1], [r[0]])
+                body = norm(body) if body is not None else None
+                if body is None or body[0] != 'ite':
+                    return None
+                some, none, cond = body[2], body[3], body[1]
+                is_none = lambda x_: x_[0] == 'agg' and isinstance(x_[1], tuple) and len(x_[1]) > 2 and x_[1][2] == 'None'
+                is_some = lambda x_: x_[0] == 'agg' and isinstance(x_[1], tuple) and len(x_[1]) > 2 and x_[1][2] == 'Some' and len(x_[2]) == 1
+                if is_some(some) and is_none(none):
+                    self.filters.setdefault(L, []).append(self.canon(cond))
+                    return some[2][0], r[1]
+                if is_none(some) and is_some(none):
+                    self.filters.setdefault(L, []).append(self.canon(('un', 'Not', cond)))
+                    return none[2][0], r[1]
+                return None
             if name.endswith('Iterator::take') and len(S1[2]) == 2:
                 r = self.elem_of(S1[2][0], L, pos)
                 if r is None:
